@@ -23,7 +23,7 @@ ASSUMPTIONS = ['the instrumented library (vlib/cxxlib.py) and the harness module
                'Eigen-typed bindings cannot be executed (no Eigen in the sandbox)',
                'leak checking inside CPython is off (detect_leaks=0); object lifetime is checked with the library live counters']
 MIN_EVENTS = {'quick': {'modules_run': 20, 'calls': 900, 'results_checked': 800},
-              'thorough': {'modules_run': 350, 'calls': 30000, 'results_checked': 15000}}
+              'thorough': {'modules_run': 350, 'calls': 15000, 'results_checked': 15000}}
 
 
 def plan(tier, seed):
